@@ -490,8 +490,18 @@ def rstep (m : Model) (e : Enc) (s : RState) (line : Bytes) : Except (RState × 
 def RState.file (s : RState) : File Vals :=
   { header := s.header, cashLetters := s.cashLetters, control := s.control }
 
+/-- what a record 52 announces about itself: 101 fixed columns, then three sections (image reference key,
+digital signature, image data), each preceded by its length in 4, 5 and 7 digits -/
+def ivMinLen (dec : Bytes → Bytes) (l : Bytes) : Nat → List Nat → Nat
+  | stop, [] => stop
+  | stop, w :: ws =>
+    if l.length < stop + w then stop + w
+    else
+      let n := parseNum (dec ((l.drop stop).take w))
+      if n < 0 then l.length + 1 else ivMinLen dec l (stop + w + n.toNat) ws
+
 /-- minimum record length: 80, except records 27 and 34 - 46 bytes plus the image reference key whose
-length they announce in columns 19-22 (a negative announcement fits no layout) -/
+length they announce in columns 19-22 (a negative announcement fits no layout) - and record 52 -/
 def minLen (m : Model) (e : Enc) (l : Bytes) : Nat :=
   match kindOfLine l with
   | some .cdAddB | some .rdAddC =>
@@ -500,6 +510,8 @@ def minLen (m : Model) (e : Enc) (l : Bytes) : Nat :=
       let head := (if e.ebcdic then m.cm.decode else id) (l.take 22)
       let n := parseNum ((head.drop 18).take 4)
       if n < 0 then l.length + 1 else 46 + n.toNat
+  | some .ivData =>
+    if l.length < 80 then 80 else ivMinLen (if e.ebcdic then m.cm.decode else id) l 101 [4, 5, 7]
   | _ => 80
 
 /-- the loop of `Reader.Read` over already split lines; returns the (partial) file and the error -/
